@@ -4,6 +4,8 @@
 import Rsactor.Inv.Life
 import Rsactor.Inv.Result
 import Rsactor.Inv.Kill
+import Rsactor.Ties.lifecycle_arms
+import Rsactor.Ties.select_order
 
 namespace Rsactor.Props.C04
 open Rsactor Rsactor.Model Rsactor.Monitor
@@ -78,5 +80,10 @@ example : ∃ s, run? (init 2 {})
     [.issue 0 { kind := .stop }, .push 0, .gate, .startDone, .pollTerm, .pollMail, .gate, .stopDone] = some s ∧
     C04.accepts s.ev = true ∧ Ev.stopStart false ∈ s.ev := by
   refine ⟨_, rfl, ?_, ?_⟩ <;> decide
+
+
+/-! ### ties to the source: shape lemmas about the tables regenerated from /repo on every run -/
+-- @tie Rsactor.Ties.lifecycle_arms
+-- @tie Rsactor.Ties.select_order
 
 end Rsactor.Props.C04
